@@ -2,10 +2,10 @@
 STRINGS = "abstract"
 
 excs_from("streamflow/core/exception.py")  # class hierarchy read from the source on every run
-enum("Status", WAITING=0, FIREABLE=1, RUNNING=2, SKIPPED=3, COMPLETED=4, RECOVERY=5, ROLLBACK=6, FAILED=7, CANCELLED=8)
+enum("Status", WAITING=0, FIREABLE=1, RUNNING=2, SKIPPED=3, COMPLETED=4, RECOVERY=5, ROLLBACK=6, FAILED=7, CANCELLED=8, RECOVERED=9)
 
 cls("Lock")
-cls("Workflow", context=StreamFlowContext)
+cls("Workflow", context=StreamFlowContext, ports=Dict[Str, "InterWorkflowPort"])
 cls("RecoveryRequest", lock=Lock, name=Str, version=Int, workflow=Opt[Workflow])
 cls("Scheduler", n_rollback=Int, last_notified=Str)  # ghost: number of ROLLBACK notifications sent
 cls("FailureManager", n_recover=Int, recover_failed=Int)  # ghost: number of recover() calls, and how many of them raised
@@ -154,3 +154,82 @@ def _(self: RollbackFailureManager, job: Job, step: Step):
     # exactly one recovery attempt; it returns normally only if that attempt succeeded, whatever the log level
     ensures(self.n_recover_runs == old(self.n_recover_runs) + 1 and self.n_recover_failed == old(self.n_recover_failed))
     raises(FailureHandlingException, ensures=self.n_recover_runs == old(self.n_recover_runs) + 1 and self.n_recover_failed == old(self.n_recover_failed) + 1)
+
+
+# ---- every rollback path counts: the synchronisation of concurrent recoveries --------------------------------------------------
+cls("JobToken", tag=Str, persistent_id=Int)
+cls("Dag")
+cls("Mapper", dag_tokens=Dag, token_instances=Dict[Int, Val])
+cls("Port", name=Str)
+cls("InterWorkflowPort", bases=["Port"])
+const("logging.DEBUG", Int)
+
+
+@extern("logger.isEnabledFor")
+def _(level: Int) -> Bool: ...
+
+
+@extern("logger.debug", ignore_args="all")
+def _(): ...
+
+
+@extern("RollbackFailureManager.is_recovering")
+def _(self: RollbackFailureManager, job_name: Str) -> Bool: ...
+
+
+@extern("get_job_token", ignore_args="all")
+def _() -> JobToken: ...
+
+
+@extern("Dag.contains", ignore_args="all")
+def _(self: Dag) -> Bool: ...
+
+
+@extern("Dag.successors", ignore_args="all")
+def _(self: Dag) -> List[Int]: ...
+
+
+@extern("Mapper.move_token_to_root", ignore_args="all")
+def _(self: Mapper): ...
+
+
+@extern("_get_recovery_port", ignore_args="all")
+def _() -> Port: ...
+
+
+@extern("InterWorkflowPort.add_inter_port", ignore_args="all")
+def _(self: InterWorkflowPort): ...
+
+
+@pure
+def all_bounded(fm: RollbackFailureManager) -> Bool:
+    return forall(fm._retry_requests, lambda n: bounded(fm, fm._retry_requests[n]))
+
+
+@contract("streamflow/recovery/failure_manager.py", "RollbackFailureManager._synchronize_workflows")
+def _(self: RollbackFailureManager, failed_job: Str, job_tokens: List[JobToken], mapper: Mapper, retry_requests: List[RecoveryRequest], workflow: Workflow):
+    local("available_tokens", Set[Int])
+    requires(all_bounded(self))
+    # the requests handed in are the registered ones (they come from get_request)
+    requires(forall(retry_requests, lambda r: r.name in self._retry_requests and self._retry_requests[r.name] is r))
+    assigns(all_of("RecoveryRequest.version"), all_of("RecoveryRequest.workflow"), self.context.scheduler.n_rollback, self.context.scheduler.last_notified)
+    raises(FailureHandlingException)
+    # (the branch for a job that is already being recovered wires inter-workflow ports: its look-ups are not the subject here)
+    raises(AttributeError)
+    raises(KeyError)
+    # whichever jobs are rolled back here — the failed one or the upstream jobs it drags along — none counts past the limit:
+    # every count goes through _update_request
+    ensures(all_bounded(self))
+    ensures(forall(self._retry_requests, lambda n: self._retry_requests[n].version >= old(self._retry_requests[n].version)))
+    invariant(0, all_bounded(self) and forall(self._retry_requests, lambda n: self._retry_requests[n].version >= old(self._retry_requests[n].version)))
+
+
+# ---- a failed job fails its step -------------------------------------------------------------------------------------------------
+@contract("streamflow/workflow/step.py", "_reduce_statuses")
+def _(statuses: List[Int]) -> Int:
+    # the first FAILED or CANCELLED job status decides: in particular a FAILED job that no CANCELLED one precedes makes the step FAILED
+    # (a step that ends FAILED makes the executor raise), whatever comes later in the list
+    ensures(implies(exists(range(0, len(statuses)), lambda j: statuses[j] == Status.FAILED and forall(range(0, j), lambda k: statuses[k] != Status.CANCELLED)),
+                    result == Status.FAILED))
+    ensures(implies(result == Status.FAILED, exists(statuses, lambda x: x == Status.FAILED)))
+    invariant(0, forall(range(0, i), lambda k: statuses[k] != Status.FAILED and statuses[k] != Status.CANCELLED), index="i")
